@@ -17,7 +17,7 @@ FLOOR = {'quick': 150, 'thorough': 2000}
 ASSUMPTIONS = ['Redis and MongoDB are in-process fakes of the client calls vakt makes (no servers in this sandbox); SQL is '
                'the real SQLAlchemy on SQLite with foreign_keys=ON',
                'uids are strings in this check; non-str uids through SQL/Redis are the C09 uid-type finding']
-UIDS = ['a', 'b', 'c', '1', 'B']
+UIDS = ['a', 'b', 'c', '1', 'B', '']
 KINDS = ['memory', 'sqlite', 'redis-json', 'redis-pickle', 'mongo',
          'enfold:memory', 'enfold:sqlite', 'enfold:redis-json', 'enfold:mongo',
          'observable:memory', 'observable:sqlite', 'observable:redis-pickle', 'observable:mongo']
